@@ -635,7 +635,12 @@ pub fn writer_body(ch: &Chooser, cases: &[&WCase], workers: &[usize], modes: &[P
         None => String::new(),
         Some(r) => format!(" script=reject-{} cause={}", r.shape, r.cause[ai]),
     };
-    let w = if workers_apply(case.format) { *ch.pick_free("workers", workers) } else { 1 };
+    // the reject scripts decide at the format level, before the BGZF layer: first worker count only
+    let w = match (workers_apply(case.format), si) {
+        (true, 0) => *ch.pick_free("workers", workers),
+        (true, _) => workers[0],
+        _ => 1,
+    };
     let mode = ch.pick_free("mode", modes).clone();
     let fmt = case.format.name();
     let aname = api_name(case, api);
@@ -1121,7 +1126,7 @@ fn shapes(n_rej: usize, n_good: usize) -> Vec<(&'static str, Vec<Step>)> {
     v.push(("reject-last", vec![g(0), g(1), R(mid)]));
     v.push(("two-rejects", vec![g(0), R(0), R(n_rej - 1), g(1)]));
     let mut alt = vec![g(0)];
-    for k in 0..n_rej.min(4) {
+    for k in 0..n_rej.min(3) {
         alt.push(R(k));
         alt.push(g(k + 1));
     }
@@ -1167,7 +1172,7 @@ fn carries_rejects(doc: &Doc) -> bool {
     }
 }
 
-const MAX_REJECTS: usize = 6;
+const MAX_REJECTS: usize = 4;
 
 /// Keeps the candidates the synchronous writer rejects through `api`, at most `MAX_REJECTS`, spread over
 /// the list (the list is in encoder field order, so the kept ones fail at different depths).
